@@ -8,8 +8,16 @@ claim("C06",
       "Not decided: that drop glue runs the guard, state after reopen, value-level semantics.",
       "MIR dominance/must-pass-through + guard-liveness dataflow + path-sensitive constant state analysis", "DESIGN §4 C06")
 
+claim("C01",
+      "Decides the write-ordering and write-ahead skeleton of the collection crash protocol on every CFG path: checkpoint step order and Ok-edge chaining, "
+      "intent-before-mutation (path-sensitive), watermark-before-create, unknown-outcome => poison, id allocator monotonic, who-may-write table of commit objects, "
+      "recovery order in open, no dropped storage-write Result. Obligations are about these clauses, not about recovery convergence.",
+      "Trusted: rustc MIR and callee resolution; object_store puts atomic; private helper names (flush_inner, store_ids, ...) are anchors - a rename fails closed (exit 2). "
+      "Not decided: sufficiency of the protocol, nested crashes, backend semantics, decoded document integrity.",
+      "MIR must-pass-through / ordering on the CFG, Ok/Err edge dominance, path operand slicing to path constants, path-sensitive option correlation", "DESIGN §4 C01")
+
 _pending = "rules for this property are not built yet in this round (see DESIGN §10 order of work); not claimed until they are"
-for pid in ["C01", "C02", "C03", "C04", "C05", "C07", "C08", "C09", "C10", "C11", "C12", "C13", "C14", "C15", "C16", "C17", "C18", "C19"]:
+for pid in ["C02", "C03", "C04", "C05", "C07", "C08", "C09", "C10", "C11", "C12", "C13", "C14", "C15", "C16", "C17", "C18", "C19"]:
     NA[pid] = _pending
 NA["C20"] = ("every clause is an algebraic law over runtime multisets of assertions (permutation invariance, monotone score fold, thresholds); "
              "no clause is visible in the shape of the code, so static analysis cannot decide it (DESIGN §6)")
